@@ -69,19 +69,25 @@ Definition addr_loose (bare : bool) (toks : list string) : option (string * opti
   | [] => None
   end.
 
+(** the look-behind of the destination (repair F11): a destination does not start right after the
+    keyword of an address group, i.e. at the group's name ("object-group anyX" is not "any") *)
+Definition after_group_kw (prev : string) : bool := String.eqb prev "object-group" || String.eqb prev "addrgroup".
+
 (** rightmost position (scanning the greedy "( .+)?" from the end) where a destination matches:
-    (source-port tokens, destination text, captured rest) *)
-Fixpoint find_dst (before : list string) (toks : list string)
+    (source-port tokens, destination text, captured rest); [prev] is the token standing before
+    the candidate position *)
+Fixpoint find_dst (prev : string) (before : list string) (toks : list string)
   : option (list string * string * option (list string)) :=
   match toks with
   | [] => None
   | t :: rest =>
-      match find_dst (before ++ [t]) rest with
+      match find_dst t (before ++ [t]) rest with
       | Some r => Some r                                  (* a match further right wins *)
-      | None => match addr_loose false toks with
-                | Some (d, r) => Some (before, d, r)
-                | None => None
-                end
+      | None => if after_group_kw prev then None
+                else match addr_loose false toks with
+                     | Some (d, r) => Some (before, d, r)
+                     | None => None
+                     end
       end
   end.
 
@@ -109,7 +115,7 @@ Definition split_head (toks : list string) : option (string * string * list stri
 Definition split_body (proto : string) (toks : list string) : option (string * string * list string * string * list string) :=
   match addr_whole toks with
   | Some (src, rest) =>
-      match find_dst [] rest with
+      match find_dst (last (split_ws src) "") [] rest with
       | Some (sp, dst, r) => Some (proto, src, sp, dst, match r with Some l => l | None => [] end)
       | None => None
       end
